@@ -3,10 +3,10 @@
     PV.ThermalExamples).
 
     Proved here at full strength: the retain flag, the retained tests of all four prepare functions, eps = 0,
-    and the linear-in-eps bounds for the single-particle Green's function (2 eps dim / |Im z|) and for ensemble
-    averages (eps dim max|A_nn|).  NOT proved in Coq: the bounds for the dynamical susceptibility and for the
-    two-particle Green's function (the property asks for "a bound proportional to eps"); see the comment at the
-    end of this file for the statements that the check uses numerically. *)
+    and the linear-in-eps bounds for the single-particle Green's function (2 eps dim / |Im z|), for ensemble
+    averages (eps dim max|A_nn|) and for the dynamical susceptibility on the imaginary axis (beta eps dim).
+    NOT proved in Coq: a bound for the two-particle Green's function (the property asks for "a bound proportional
+    to eps"); see the comment at the end of this file for the statement that the check uses numerically. *)
 Require Import Reals List Arith Bool.
 From Coquelicot Require Import Complex.
 From PV Require Import Outcome Thermal ThermalSpec ThermalProofs ThermalExamples.
@@ -123,3 +123,33 @@ Theorem ea_truncation_bound : forall (A : fieldop R) (D : list Rdmpart) (eps max
                Rabs (vt - v) <= eps * dim * maxA.
 Proof. exact ThermalProofs.ea_truncation_bound. Qed.
 Print Assumptions ea_truncation_bound.
+
+(** |chi_trunc(z) - chi(z)| <= beta eps dim for z on the imaginary axis (every bosonic Matsubara frequency, zero included).
+    chi is a sum over parts of terms: a pole below the resonance tolerance contributes beta a b w_n at zero frequency only,
+    any other pole -a b (w_n - w_m)/(z - pole) (or nothing when the residue is under the library's threshold).
+    Named hypotheses: dropped_terms_gibbs (weights in [0, eps] and in the Gibbs ratio, which weights_ratio provides),
+    row_norm_a, row_norm_b, outer_sizes.  The key step is |w_n - w_m| <= beta |P| max(w_n, w_m). *)
+Theorem susc_truncation_bound : forall (parts : list suscpart) (ret : nat -> bool) (beta tol eps dim : R) (zf : bool) (z : C),
+  0 <= beta -> 0 < tol -> 0 <= eps -> fst z = 0 ->
+  (forall p row t, In p parts -> suscpart_kept ret p = false -> In row (sp_rows p) -> In t row ->
+     0 <= st_wn t <= eps /\ 0 <= st_wm t <= eps /\ st_wm t = st_wn t * exp (- beta * st_pole t)) ->
+  (forall p row, In p parts -> In row (sp_rows p) -> lsum (fun t => Cmod (st_a t) * Cmod (st_a t)) row <= 1) ->
+  (forall p row, In p parts -> In row (sp_rows p) -> lsum (fun t => Cmod (st_b t) * Cmod (st_b t)) row <= 1) ->
+  lsum (fun p => INR (length (sp_rows p))) parts <= dim ->
+  Cmod (Cminus (susc_val beta tol zf z (filter (suscpart_kept ret) parts)) (susc_val beta tol zf z parts)) <= beta * eps * dim.
+Proof. exact ThermalProofs.susc_truncation_bound. Qed.
+Print Assumptions susc_truncation_bound.
+
+(** Not machine-checked (used numerically by checks/C19.py, with this derivation):
+
+    tpgf_truncation_bound (full statement, unproved):
+      for fermionic Matsubara frequencies z_k = i pi (2 n_k + 1)/beta,
+      |chi4_trunc(z1,z2,z3) - chi4(z1,z2,z3)| <= 6 * (dim^2/4) * (4/pi^3 + 2/pi^2) * beta^3 * eps  <  0.5 dim^2 beta^3 eps.
+    Derivation: a dropped part has all four blocks discarded, so the four weights of each of its terms are in [0, eps].
+    In the kernel phi of doc/gamma4.tex every denominator factor z + (energy difference) has modulus >= pi/beta for a
+    fermionic combination of frequencies; a bosonic factor appears only in (w_k - w_i)/(z1+z2+E_i-E_k) (and its beta w_i
+    limit), which is bounded by beta max(w) exactly as in susc_truncation_bound.  Hence |phi| <= eps beta^3 (4/pi^3 + 2/pi^2).
+    The sum over the four state indices of |<i|O1|j><j|O2|k><k|O3|l><l|O4|i>| is at most
+    ||O1||_F ||O2||_F ||O3||_F ||O4||_F = (dim/2)^2 (each c, c^+ has squared Frobenius norm Tr c^+ c = dim/2);
+    there are 6 operator orderings.  What is missing for a proof: a model of TwoParticleGFPart's term lists (C02) with
+    the Frobenius-norm estimate for four-fold products. *)
